@@ -2,10 +2,10 @@
    Theorems only; each closed by an application of a lemma of coq/Chain/*.v.
 
    The model (coq/Chain/Model.v) follows agent/consul/discoverychain/compile.go function by
-   function; [compile es cx svc ords] is compiler.compile for the entry list [es] (read only as a
+   function; [compile es cx svc mo] is compiler.compile for the entry list [es] (read only as a
    map keyed by kind and name), the request [cx] (datacenter, OverrideProtocol) and chain [svc];
-   [ords] is the order in which flattenAdjacentSplitterNodes meets the nodes of the Go map
-   c.nodes in each of its passes (Go leaves it unspecified). *)
+   [mo] is the order in which the Go map c.nodes yields its keys when
+   flattenAdjacentSplitterNodes collects the node ids it then sorts (Go leaves it unspecified). *)
 From Verif Require Import Base.Prelude.
 From Verif Require Import Chain.Model.
 From Verif Require Import Chain.Lemmas.
@@ -18,6 +18,7 @@ From Verif Require Import Chain.Store.
 From Verif Require Import Chain.Complete.
 From Verif Require Import Chain.Cycles.
 From Verif Require Import Chain.Order.
+From Verif Require Import Chain.Final.
 From Verif Require Import Chain.Examples.
 From Coq Require Import Permutation.
 Local Open Scope string_scope.
@@ -36,18 +37,18 @@ Local Open Scope list_scope.
    is a leg of a splitter drops with every pass (every node is reachable from the start node, so
    the rank computed by the cycle check covers all of c.nodes); removeUnusedNodes — the size of the
    work list plus 1 + out-degree of every node not yet visited. *)
-Theorem C15_terminates : forall es cx svc ords,
-  (exists g, compile es cx svc ords = Ok g) \/
-  (exists e, compile es cx svc ords = Err e /\ e <> EOutOfFuel /\ e <> EInternal).
-Proof. exact compile_total. Qed.
+Theorem C15_terminates : forall es cx svc mo,
+  (exists g, compile es cx svc mo = Ok g) \/
+  (exists e, compile es cx svc mo = Err e /\ e <> EOutOfFuel /\ e <> EInternal).
+Proof. exact compile_total'. Qed.
 
 (* ---------------------------------------------------------------- closure *)
 
 (* In a compiled chain the start node exists, every NextNode of a route or split exists, node kinds
    match their keys, every resolver node's target and failover targets are in the target map, and
    a rank decreases along every edge (no cycle, no infinite walk). *)
-Theorem C15_closed : forall es cx svc ords g,
-  compile es cx svc ords = Ok g ->
+Theorem C15_closed : forall es cx svc mo g,
+  compile es cx svc mo = Ok g ->
   lookup (g_start g) (g_nodes g) <> None /\
   (forall a nd b, lookup a (g_nodes g) = Some nd -> In b (children nd) -> lookup b (g_nodes g) <> None) /\
   (forall k nd, lookup k (g_nodes g) = Some nd ->
@@ -64,9 +65,9 @@ Proof. exact compile_closed_unfolded. Qed.
 (* Every path from the start node ends at a resolver with a target: every node reached from the
    start can be continued to a resolver node whose target is in the target map, and a node without
    outgoing edge IS such a resolver (service-splitter entries have at least one split: Validate). *)
-Theorem C15_paths_end_at_resolvers : forall es cx svc ords g,
+Theorem C15_paths_end_at_resolvers : forall es cx svc mo g,
   (forall s l, get_splitter es s = Some l -> l <> []) ->
-  compile es cx svc ords = Ok g ->
+  compile es cx svc mo = Ok g ->
   forall a, reachN (g_nodes g) (g_start g) a ->
     (exists t, reachN (g_nodes g) a (NResolver t) /\ In t (g_targets g)) /\
     ((forall b, ~ edge (g_nodes g) a b) -> exists t, a = NResolver t /\ In t (g_targets g)).
@@ -81,20 +82,20 @@ Proof. exact compile_paths. Qed.
 
 (* a redirect cycle under ANY target reachable from the service through routes, splits and
    failover makes compile fail (it cannot be followed, and it cannot be skipped) *)
-Theorem C15_cycles_reported : forall es cx svc ords t,
+Theorem C15_cycles_reported : forall es cx svc mo t,
   Req es cx svc (QTarget t) \/ Req es cx svc (QFail t) ->
   cyclic es cx t ->
-  exists e, compile es cx svc ords = Err e.
-Proof. exact redirect_cycle_reported. Qed.
+  exists e, compile es cx svc mo = Err e.
+Proof. exact redirect_cycle_reported'. Qed.
 
 (* a splitter reachable from the service that splits, through any number of splitters, back to
    itself makes compile return the circular-reference error (or the error that already stopped
    assembleChain elsewhere in the chain) *)
-Theorem C15_cycles_reported_splitters : forall es cx svc ords a,
+Theorem C15_cycles_reported_splitters : forall es cx svc mo a,
   Req es cx svc (QSplit a) -> SplitPath es cx a a ->
-  (exists e, assemble es cx svc = Err e /\ compile es cx svc ords = Err e) \/
-  compile es cx svc ords = Err ECircularReference.
-Proof. exact reference_cycle_reported. Qed.
+  (exists e, assemble es cx svc = Err e /\ compile es cx svc mo = Err e) \/
+  compile es cx svc mo = Err ECircularReference.
+Proof. exact reference_cycle_reported'. Qed.
 
 (* Redirects: wherever getResolverNode starts its RESOLVE_AGAIN loop (routes, splits, failover
    targets) on a target whose redirect / default-subset walk never ends, the loop returns the
@@ -107,11 +108,11 @@ Theorem C15_cycles_reported_redirect_loop : forall es cx st t,
 Proof. exact resolve_loop_cycle. Qed.
 
 (* ... in particular for the chain's own resolver when no router / splitter sits in front of it *)
-Theorem C15_cycles_reported_redirect : forall es cx svc ords,
+Theorem C15_cycles_reported_redirect : forall es cx svc mo,
   (disable_adv cx = true \/ (get_router es svc = None /\ get_splitter es svc = None)) ->
   cyclic es cx (new_target cx svc "") ->
-  compile es cx svc ords = Err ECircularRedirect \/ compile es cx svc ords = Err EProtocolMismatch.
-Proof. exact compile_redirect_cycle. Qed.
+  compile es cx svc mo = Err ECircularRedirect \/ compile es cx svc mo = Err EProtocolMismatch.
+Proof. exact compile_redirect_cycle'. Qed.
 
 (* A successful resolution is the END of the walk (so a reachable cycle can never be "followed"):
    the target a resolver call returns is the final target of the walk from the requested one. *)
@@ -121,41 +122,28 @@ Proof. exact resolution_follows_walk. Qed.
 
 (* References among router / splitter nodes: a cycle reachable from the start node of the
    assembled table makes compile return the circular-reference error. *)
-Theorem C15_cycles_reported_reference : forall es cx svc ords st start router a b,
+Theorem C15_cycles_reported_reference : forall es cx svc mo st start router a b,
   assemble es cx svc = Ok (st, start, router) ->
   reachN (to_nodes svc st router) start a -> edge (to_nodes svc st router) a b ->
   reachN (to_nodes svc st router) b a ->
-  compile es cx svc ords = Err ECircularReference.
-Proof. exact compile_reference_cycle. Qed.
+  compile es cx svc mo = Err ECircularReference.
+Proof. exact compile_reference_cycle'. Qed.
 
 (* ---------------------------------------------------------------- determinism *)
 
 (* The result depends on the entry MAP only: listing the entries in another order changes nothing. *)
-Theorem C15_deterministic : forall es es' cx svc ords,
+Theorem C15_deterministic : forall es es' cx svc mo,
   NoDup (map ekey es) -> Permutation es es' ->
-  compile es cx svc ords = compile es' cx svc ords.
-Proof. exact compile_permutation. Qed.
+  compile es cx svc mo = compile es' cx svc mo.
+Proof. exact compile_permutation'. Qed.
 
-(* Full statement — the result does not depend on the map iteration order inside
-   flattenAdjacentSplitterNodes either — is FALSE of the faithful model (finding
-   C15-flatten-order: three chained splitters, weights rounded after every inlining step). *)
-Theorem C15_deterministic_order_refuted :
-  exists es cx svc o1 o2, compile es cx svc o1 <> compile es cx svc o2.
-Proof. exact order_refuted. Qed.
-
-(* ... and holds exactly outside that class: when splitters are chained at most two deep
-   ([splits_to a b]: splitter a has a split that resolves to splitter b) the compiled chain is the
-   same for every iteration order. *)
-Theorem C15_deterministic_order_partial : forall es cx svc o1 o2,
-  (forall a b c, splits_to es cx a b -> splits_to es cx b c -> False) ->
-  compile es cx svc o1 = compile es cx svc o2.
-Proof. exact compile_order_shallow. Qed.
-
-(* Whether compile fails, and with which error, never depends on the iteration order (so the
-   write guard below is unaffected by the finding). *)
-Theorem C15_error_order_independent : forall es cx svc o1 o2 e,
-  compile es cx svc o1 = Err e -> compile es cx svc o2 = Err e.
-Proof. exact compile_error_order. Qed.
+(* ... nor on the iteration order of the Go map c.nodes: flattenAdjacentSplitterNodes sorts the node
+   ids before visiting them (2e58eb8).  Before that fix the statement was false: the loop, run with
+   two different visiting orders on three chained splitters, rounds to different weights
+   (Chain/Examples.v loop_order_would_matter; the regression is generated on every run). *)
+Theorem C15_deterministic_order : forall es cx svc mo1 mo2,
+  compile es cx svc mo1 = compile es cx svc mo2.
+Proof. exact compile_map_order. Qed.
 
 (* ---------------------------------------------------------------- write guard *)
 
@@ -172,14 +160,15 @@ Theorem C15_write_guard : forall store op store' acc,
   (acc = true -> store' = proposed store op \/ (no_validation store op /\ store' = store)).
 Proof. exact write_guard. Qed.
 
-(* "A write that would make ANY chain uncompilable is rejected" is FALSE of the faithful model
-   (finding C15-guard-one-hop): every chain compiles, the write is accepted, chain "a" is broken. *)
-Theorem C15_store_validity_refuted :
-  exists store op,
-    forallb (compiles store) ["a"; "b"; "c"] = true /\
-    write store op = (proposed store op, true) /\
-    compile (proposed store op) test_ctx "a" [] = Err EProtocolMismatch.
-Proof. exact store_validity_refuted. Qed.
+(* The chains re-validated are EVERY chain that can reach the written name (f9df4b1: the link index is
+   walked transitively).  The two-hop write that used to slip through — router a -> splitter b -> c,
+   then service-defaults c protocol=grpc — is refused and leaves the store unchanged. *)
+Theorem C15_write_guard_two_hops :
+  forallb (compiles indirect_store) ["a"; "b"; "c"] = true /\
+  affected indirect_store (op_key indirect_op) = ["c"; "b"; "a"] /\
+  compile (proposed indirect_store indirect_op) test_ctx "a" [] = Err EProtocolMismatch /\
+  write indirect_store indirect_op = (indirect_store, false).
+Proof. exact guard_two_hops_rejected. Qed.
 
 (* ---------------------------------------------------------------- non-vacuity *)
 
@@ -223,11 +212,9 @@ Print Assumptions C15_cycles_reported_redirect.
 Print Assumptions C15_resolution_follows_walk.
 Print Assumptions C15_cycles_reported_reference.
 Print Assumptions C15_deterministic.
-Print Assumptions C15_deterministic_order_refuted.
-Print Assumptions C15_deterministic_order_partial.
-Print Assumptions C15_error_order_independent.
+Print Assumptions C15_deterministic_order.
 Print Assumptions C15_write_guard.
-Print Assumptions C15_store_validity_refuted.
+Print Assumptions C15_write_guard_two_hops.
 Print Assumptions C15_example_compiles.
 Print Assumptions C15_example_cycle.
 Print Assumptions C15_example_two_deep.
